@@ -10,9 +10,13 @@ package otlptracehttp
 //
 //   clsh <gen> <resp> => <ok:<handled>|fatal|retry:<throttle ns>>
 //        one upload with retry disabled; the returned error goes through the package's `evaluate`
-//   uph <gen> <pkg>,gz<0|1>,t<d|p|z> <enabled> <M 0|H|T> <cancel -|pre|at<j>|stop<j>> <resp> | <resp> …
+//   uph <gen> <pkg>,gz<0|1>,t<d|p|z|q>,c<d|t|p|b> <enabled> <M 0|H|T> <cancel -|pre|at<j>|stop<j>> <resp> | <resp> …
 //        => <res> <attempts> s<0|1> h<n> g<bits|-> p<0|1|-> S<-|nil|ctx|other|stuck>
-//     t: client timeout option — d none given (default 10 s), p WithTimeout(30 s), z WithTimeout(0) = none
+//     t: client timeout option — d none given (default 10 s), p WithTimeout(30 s), z WithTimeout(0) = none, q WithTimeout(80 ms)
+//     c: construction path of the client — d shared package-level transport, t WithTLSClientConfig, p WithProxy, b both
+//        (t/p/b: the constructor clones the transport; the scripted protocol is then registered on the clone, which is
+//        still the http.Client the constructor built; otlploghttp: ignored, see its adapter)
+//     resp net 3: the request is accepted and never answered (ends only with the request context, i.e. http.Client.Timeout)
 //        (http.Client.Timeout: per attempt, 0 = no limit)
 //     p: the upload returned within 2 s of the cancellation / Stop (0 = still pending then: the harness's watchdog
 //        released it through the caller's context); S: what Stop returned (stuck = not within 2 s)
@@ -72,6 +76,9 @@ type vRT struct {
 
 var vCurRT *vRT
 
+// vPath: construction path of the next client (read by the adapter's vNewUploader)
+var vPath = "d"
+
 // vRTs: host -> *vRT for the scenarios that run concurrently (each uses its own endpoint host)
 var vRTs sync.Map
 var vRegOnce sync.Once
@@ -116,6 +123,9 @@ func (rt *vRT) RoundTrip(req *http.Request) (*http.Response, error) {
 	}
 	it := rt.script[i]
 	switch it.net {
+	case 3:
+		<-req.Context().Done()
+		return nil, req.Context().Err()
 	case 1:
 		return nil, vTempErr{}
 	case 2:
@@ -216,7 +226,7 @@ func vCls(out *vOut, gen, tok string) {
 	out.Line("clsh %s %s => %s", gen, tok, o)
 }
 
-func vUp(out *vOut, gen, to string, gz, enabled bool, msel, cancelMode string, toks []string) {
+func vUp(out *vOut, gen, to, path string, gz, enabled bool, msel, cancelMode string, toks []string) {
 	var script []vHTTPItem
 	for _, t := range toks {
 		it, ok := vParseResp(t)
@@ -242,7 +252,9 @@ func vUp(out *vOut, gen, to string, gz, enabled bool, msel, cancelMode string, t
 	}
 	rt := &vRT{script: script}
 	vCurRT = rt
+	vPath = path
 	up := vNewUploader("", gz, rc, to)
+	vPath = "d"
 	sig := make(chan struct{}) // closed when the cancellation / stop signal has been given
 	var sigOnce sync.Once
 	sres := "-"
@@ -294,6 +306,12 @@ func vUp(out *vOut, gen, to string, gz, enabled bool, msel, cancelMode string, t
 			cancel()
 			err = <-done
 		}
+	case <-time.After(8 * time.Second):
+		// no script without a cancellation takes this long (a never-answered request ends at the 80 ms client timeout):
+		// the upload is blocked — released through the caller's context and reported p0
+		stuck = true
+		cancel()
+		err = <-done
 	}
 	tAfter := time.Now()
 	h := vTakeHandled()
@@ -363,13 +381,16 @@ func vUp(out *vOut, gen, to string, gz, enabled bool, msel, cancelMode string, t
 		g = "-"
 	}
 	p := "-"
+	if stuck {
+		p = "0"
+	}
 	if !cancelTime.IsZero() {
 		p = "0"
 		if !stuck && tAfter.Sub(cancelTime) < 2*time.Second {
 			p = "1"
 		}
 	}
-	out.Line("uph %s %s,gz%d,t%s %d %s %s %s => %s %d s%d h%d g%s p%s S%s", gen, vPkgTag, vB(gz), to, vB(enabled), msel, cancelMode,
+	out.Line("uph %s %s,gz%d,t%s,c%s %d %s %s %s => %s %d s%d h%d g%s p%s S%s", gen, vPkgTag, vB(gz), to, path, vB(enabled), msel, cancelMode,
 		strings.Join(toks, " | "), res, n, same, h, g, p, sres)
 }
 
@@ -446,6 +467,15 @@ obs:
 func vToOf(tok string) string {
 	for _, p := range strings.Split(tok, ",")[1:] {
 		if len(p) == 2 && p[0] == 't' {
+			return p[1:]
+		}
+	}
+	return "d"
+}
+
+func vPathOf(tok string) string {
+	for _, p := range strings.Split(tok, ",")[1:] {
+		if len(p) == 2 && p[0] == 'c' {
 			return p[1:]
 		}
 	}
@@ -532,7 +562,7 @@ func TestVerifC14Client(t *testing.T) {
 						toks = append(toks, x)
 					}
 				}
-				vUp(out, f[1], vToOf(f[2]), strings.Contains(f[2], "gz1"), f[3] == "1", f[4], f[5], toks)
+				vUp(out, f[1], vToOf(f[2]), vPathOf(f[2]), strings.Contains(f[2], "gz1"), f[3] == "1", f[4], f[5], toks)
 			case f[0] == "shuth" && len(f) >= 4:
 				out.Line("%s", vShut("verif-replay.invalid:4318", f[1], vToOf(f[2]), f[3]))
 			}
@@ -616,18 +646,26 @@ func TestVerifC14Client(t *testing.T) {
 				toks[j] = strings.Join(p, ";")
 			}
 		}
-		vUp(out, gen, vPick(r, []string{"d", "d", "p", "z", "z"}), r.Intn(2) == 0, enabled, msel, cancelMode, toks)
+		vUp(out, gen, vPick(r, []string{"d", "d", "p", "z", "z"}), vPick(r, []string{"d", "d", "t", "p", "b"}), r.Intn(2) == 0, enabled, msel, cancelMode, toks)
 	}
 	// F19 end to end, always present: Retry-After: 1 then success
-	vUp(out, "f19", "d", false, true, "H", "-", []string{"503;" + vHex("1") + ";0;e", "200;-;0;e"})
-	vUp(out, "f19", "z", true, true, "0", "-", []string{"429;" + vHex("2") + ";0;e", "200;-;0;e"})
+	vUp(out, "f19", "d", "d", false, true, "H", "-", []string{"503;" + vHex("1") + ";0;e", "200;-;0;e"})
+	vUp(out, "f19", "z", "b", true, true, "0", "-", []string{"429;" + vHex("2") + ";0;e", "200;-;0;e"})
 	// every timeout configuration x {cancel, stop} in the first retry wait, always present
 	for _, to := range []string{"d", "p", "z"} {
-		vUp(out, "cancel", to, false, true, "0", "at0", []string{"503;-;0;e", "200;-;0;e"})
-		if vCanStop {
-			vUp(out, "stop", to, true, true, "0", "stop0", []string{"503;-;0;e", "200;-;0;e"})
-			vUp(out, "stop", to, false, true, "0", "stop1", []string{"429;-;0;e", "503;-;1;e", "200;-;0;e"})
+		for _, pa := range []string{"d", "b"} {
+			vUp(out, "cancel", to, pa, false, true, "0", "at0", []string{"503;-;0;e", "200;-;0;e"})
+			if vCanStop {
+				vUp(out, "stop", to, pa, true, true, "0", "stop0", []string{"503;-;0;e", "200;-;0;e"})
+				vUp(out, "stop", to, pa, false, true, "0", "stop1", []string{"429;-;0;e", "503;-;1;e", "200;-;0;e"})
+			}
 		}
+	}
+	// a request that is accepted and never answered, client timeout 80 ms, on every construction path: the attempt is
+	// abandoned at the timeout (temporary error), retried, delivered
+	for _, pa := range []string{"d", "t", "p", "b"} {
+		vUp(out, "stall", "q", pa, pa == "t", true, "0", "-", []string{"503;-;3;e", "200;-;0;e"})
+		vUp(out, "stall", "q", pa, false, true, "H", "-", []string{"429;-;0;e", "200;-;3;e", "200;-;0;p1:2:" + vHex("partial")})
 	}
 	// export pending -> Shutdown with a 100 ms deadline; the scenarios of one leg run concurrently
 	var wg sync.WaitGroup
